@@ -219,6 +219,23 @@ func zzvUseDamaged(base string, data []byte, names []string) (out zzvRestOut, af
 		for i, c := range cs {
 			c.Add(int64(1 << i))
 		}
+		// Another writer grows the file (new pages), then the process creates one more counter in
+		// the bucket the damage may sit in: the remap path runs on a damaged file.
+		if f.current.Load() != nil {
+			other := &file{buildInfo: zzvBuildInfo()}
+			other.rotate1()
+			if other.current.Load() != nil {
+				for i := 0; i < 5; i++ {
+					other.lookup(fmt.Sprintf("grow%d/%s", i, strings.Repeat("g", 4000)))
+				}
+				if m := other.current.Load(); m != nil {
+					m.close()
+				}
+			}
+			late := w.newCounter(f, zzvCollideN(7)[6])
+			late.Add(64)
+			cs[0].Add(128)
+		}
 	}()
 	if out.noReturn || out.panicked != "" {
 		// The process state may hold locks; do not touch it further.
@@ -268,7 +285,7 @@ func TestVerifC05(t *testing.T) {
 			break
 		}
 	}
-	bases := map[string][]string{"one": {k1}, "two-collide": {k1, k2}, "two-apart": {k1, "b"}, "three": {k1, k2, "b"}}
+	bases := map[string][]string{"one": {k1}, "two-collide": {k1, k2}, "two-apart": {k1, "b"}, "three": {k1, k2, "b"}, "five-collide": zzvCollideN(5)}
 	var bnames []string
 	for n := range bases {
 		bnames = append(bnames, n)
@@ -316,7 +333,7 @@ func TestVerifC05(t *testing.T) {
 			for _, v := range pend {
 				tot += v
 			}
-			if tot > 7 {
+			if tot > 7+64+128 {
 				res.Violate("over-count", fmt.Sprintf("pending %d exceeds the increments made: %s", tot, desc), map[string]any{"case": desc})
 			}
 			if tot > 0 {
